@@ -439,6 +439,37 @@ def crafted():
 
 # ---------------------------------------------------------------------------
 
+_CANARY = []
+_REG0 = {}
+
+
+def canary_init():
+    global _CANARY, _REG0
+    _CANARY = []
+    for v, label in itertools.islice(c13.gen_values("quick", wide=False), 0, 4000, 13):
+        try:
+            b = enc(v)
+            _CANARY.append((b, c13.canon(c13.deserialize_value(io.BytesIO(b)))))
+        except Exception:
+            continue
+    _REG0 = (dict(SerializableType.registry), dict(SerializableType.names))
+
+
+def canary_check():
+    if (dict(SerializableType.registry), dict(SerializableType.names)) != _REG0:
+        r1, n1 = dict(SerializableType.registry), dict(SerializableType.names)
+        diff = sorted(set(r1) ^ set(_REG0[0])) + sorted(set(n1) ^ set(_REG0[1]))
+        return ("decoding hostile bytes changes the process-wide class registry", "ids/names added, removed or rebound: %r" % (diff[:6] or "rebound",))
+    for b, want in _CANARY:
+        try:
+            got = c13.canon(c13.deserialize_value(io.BytesIO(b)))
+        except Exception as e:
+            return ("after decoding hostile bytes an honest encoding no longer decodes", "%s: %r" % (b[:24].hex(), e))
+        if got != want:
+            return ("after decoding hostile bytes an honest encoding decodes to a different value", "%s: %.80r, before: %.80r" % (b[:24].hex(), got, want))
+    return None
+
+
 def work_init(tier):
     global _TIER, _TOK, _SMALL, _HS, _CRAFT
     _TIER = tier
@@ -448,6 +479,7 @@ def work_init(tier):
     _CRAFT = crafted()
     sys.setrecursionlimit(1000)
     signal.signal(signal.SIGVTALRM, _alarm)
+    canary_init()
 
 
 def fold(acc, cls, bad, wit):
@@ -539,6 +571,11 @@ def work(arg):
                     total += 1
                     cls, bad, calls = probe(m, fn=handshake_entry(hs))
                     fold(acc, "entry:" + cls, bad, {"family": "crafted-entry", "name": name, "msg": hs})
+    # canary: whatever the hostile inputs of this work item did to the process (registries, caches, counters), honest encodings
+    # still decode to what they decoded to before, and the class registry is what it was
+    bad = canary_check()
+    if bad:
+        acc["viols"].setdefault(("state-poisoning", bad[0]), [0, {"family": "canary", "after": [kind, k, n]}, bad[1]])[0] += 1
     return total, dict(acc["counts"]), acc["viols"], maxratio
 
 
